@@ -709,6 +709,12 @@ func (c *c11World) timing() {
 // loop is kept busy the way a slow preceding request keeps it busy: a closure that takes 150-800 ms is
 // handed to it through the request queue. When it is done the core loop finds both the waiting request
 // and the end of the data; whichever it takes, the caller must get its one reply.
+// c11CloseOnce closes a harness signal channel that two harness tasks may both decide to close.
+func c11CloseOnce(ch chan struct{}) {
+	defer func() { recover() }()
+	close(ch)
+}
+
 func (c *c11World) lateOrphan(st int) {
 	if !c.env.Faulted() || st != c11Healthy || c.kind != 0 || c.endReq != 0 {
 		return
@@ -730,7 +736,7 @@ func (c *c11World) lateOrphan(st int) {
 		time.Sleep(when)
 		if c.endReq == 0 && c.endNow == endNow {
 			c.endReq = kind
-			close(endNow)
+			c11CloseOnce(endNow)
 		}
 	}()
 }
@@ -837,7 +843,9 @@ func (c *c11World) call(r *c11Req) {
 			simrt.Hit("start-refused-with-map-loaded")
 		}
 	}
-	if r.isStart && healthy && err != nil && !fired && c.state() == c11Healthy {
+	// (the source must also still be running: an injected failure that fires in block processing ends
+	// the run through the core loop's fail-stop, whose clean-up stops writing - not this request)
+	if r.isStart && healthy && err != nil && !fired && c.state() == c11Healthy && c.any.Running() && c.fires == firesBefore {
 		// a START that is refused leaves nothing behind: reported state and writers as before
 		if snapAfter := c.writingSnapshot(); snapAfter != snapBefore {
 			simrt.Fail("C11.refused-start", "reply:refused-start-changed-state", "%s(%s) was refused (%s) but changed the writing state\nbefore: %s\nafter:  %s", r.kind, r.desc, reply, snapBefore, snapAfter)
